@@ -46,6 +46,14 @@ model Plant2
   Vessel spare(v(k = 7));
 end Plant2;
 
+model Yard
+  Station s1(redeclare model Unit = Vessel);
+  Station s2;
+  Real sum;
+equation
+  sum = s1.out + s2.out;
+end Yard;
+
 model Site
   Plant a;
   Plant2 b;
